@@ -316,7 +316,9 @@ def pscenario(name, nodes, clients, faults, snap=0, lane=1, **kw):
     """a scenario with proxied links (partitions between live nodes).  The fault schedule decides how long it runs (a partition fault
     holds its cut for 2-7 s and then waits until every node serves again), so the clients are paced by the number of faults and the
     history stays within what porcupine finishes; one read-only client is pinned to every node; commands give up after 1.5 s (on the
-    minority side they would block for as long as the cut lasts) and count as unknown outcome.  lane: scenarios of one lane run one
+    minority side they would block for as long as the cut lasts; a command a follower forwarded into the cut is lost for good) and
+    count as unknown outcome; a client whose command got no reply backs off for 0.3-0.8 s and turns to the other nodes for 4 s
+    (every unknown-outcome write stays concurrent with the rest of the history: their number decides the search time).  lane: scenarios of one lane run one
     after the other in one harness process, lanes run beside each other (lane 0 = the main sequence)."""
     d = scenario(name, nodes, clients, 3000, faults, snap=snap, proxied=True, readers=1, op_timeout_ms=1500,
                  max_ops=2500, think_ms=min(48, 12 * len(faults)))
@@ -437,16 +439,21 @@ def run_cluster(R, ctx, prop, binary, known_sigs, demo_props):
             with concurrent.futures.ThreadPoolExecutor(max_workers=8) as ex:
                 # the scenarios of a lane run one after the other in one harness (timing matters); the lanes (0 = main, 1.. = the
                 # scenarios with proxied links) and the small repros run beside each other, each with its own block of ports
-                lane_f = []
-                for lane in sorted(lanes):
+                def start(lane):
                     ls = lanes[lane]
-                    lane_f.append(ex.submit(run_engine, binary, server, os.path.join(wd_l, "main" if lane == 0 else "lane%d" % lane),
-                                            R.seed * 1000 + 100 * lane, ls, 60 + sum(s["load_ms"] / 1000.0 + 90 + 25 * len(s["faults"]) for s in ls),
-                                            0 if lane == 0 else len(side) + lane))
+                    return ex.submit(run_engine, binary, server, os.path.join(wd_l, "main" if lane == 0 else "lane%d" % lane),
+                                     R.seed * 1000 + 100 * lane, ls, 60 + sum(s["load_ms"] / 1000.0 + 90 + 25 * len(s["faults"]) for s in ls),
+                                     0 if lane == 0 else len(side) + lane)
+                # quick tier: everything at once (one short scenario per lane).  Thorough tier: the long main sequence first, the
+                # partition lanes after it - run beside it they slow its 16-client scenarios down enough (more commands without a
+                # reply, a busier machine for porcupine) to leave linearizability searches unfinished.
+                lane_f = [start(lane) for lane in sorted(lanes) if quick or lane == 0]
                 for i, d in enumerate(side):
                     jobs.append((d, ex.submit(run_engine, binary, server, os.path.join(wd_l, "side%d" % i), R.seed * 1000 + 500 + i, [d], 180, i + 1)))
                 main = [r for f in lane_f for r in f.result()]
                 side_reports = [(d, f.result()[0]) for d, f in jobs]
+                if not quick:
+                    main += [r for f in [start(lane) for lane in sorted(lanes) if lane != 0] for r in f.result()]
             R.extra["cluster_wall_s"] = round(time.time() - t0, 1)
         finally:
             leftover = reap(wd_l)
